@@ -282,6 +282,7 @@ fn enumerate(w: &mut World, prop: &str, seed: u64, extra: &mut BTreeMap<&'static
     let mut kf05_data: Option<String> = None;
     let mut kf08: Option<String> = None;
     let mut kf06: Option<String> = None;
+    let no_kf06 = std::env::var("QSIM_NO_KF06").is_ok();
     'outer: for k in points {
         let cp = tl.at(k);
         let fam = crash::families(&cp, budget.torn, &mut rng);
@@ -314,7 +315,7 @@ fn enumerate(w: &mut World, prop: &str, seed: u64, extra: &mut BTreeMap<&'static
                 .iter()
                 .any(|(a, b)| k > *a && !seq_flush_done.iter().any(|f| *f >= *b && *f < k));
             let mut unsettled_l2 = false;
-            if v.first_problem(true).is_some() && v.fatal.is_none() && in_par_early {
+            if v.first_problem(true).is_some() && v.fatal.is_none() && in_par_early && !no_kf06 {
                 // KF06, table side: with several tasks active an L1 entry can
                 // reach the disk while the zeroing / the slices of its L2
                 // table - written by another task, which had cleared the
@@ -478,6 +479,9 @@ fn enumerate(w: &mut World, prop: &str, seed: u64, extra: &mut BTreeMap<&'static
                 };
                 for (pass, name) in [(0, "kf05"), (1, "kf06"), (2, "kf06")] {
                     if pass == 2 && !in_par {
+                        break;
+                    }
+                    if pass >= 1 && no_kf06 {
                         break;
                     }
                     let mut w2 = qspec::Walk {
